@@ -302,6 +302,13 @@ class SymEx:
                 v = self.promoted(st, op)
                 if v is not None:
                     return v
+            elif 'uneval' in op and not any(k in op for k in ('int', 'bits', 'bool', 'str', 'char', 'fn')):
+                # a named constant of aggregate type: evaluate its (straight-line) initialiser
+                cb = getattr(self.f, 'consts', {}).get(self.f.norm(op['uneval']))
+                if cb is not None and not any(bb['term']['t'] == 'switch' for bb in cb.blocks):
+                    outs = self.run(cb, [], st=st)
+                    if len(outs) == 1:
+                        return outs[0].ret
             return self.constant(op)
         return self.read_place(st, fid, op)
 
@@ -577,6 +584,9 @@ class SymEx:
         rs = self.model_combinators(st, name, args, depth)
         if rs is not None:
             return rs
+        rs = self.model_sequences(st, name, args, depth, t)
+        if rs is not None:
+            return rs
         cb = self.f.body_of_fnconst(f)
         if cb is not None and cb.is_closure and len(args) == 2:
             # "rust-call" ABI: the arguments arrive as one tuple, the closure body takes them spread
@@ -768,6 +778,155 @@ class SymEx:
                 else:
                     return None
             return out
+        return None
+
+    # ---------------------------------------------------------------- finite sequences
+    # A sequence whose elements are all known (an array literal, a constant table, an Option, a Vec built by pushes, and
+    # anything obtained from those by iter/map/filter/zip/chain/enumerate/collect) is the value ('seq', (items...)); the
+    # consumers find/any/all/position/fold/sum/count are unrolled over it by their documented definitions.
+    def as_seq(self, st, v):
+        for _ in range(4):
+            if isinstance(v, tuple) and v[0] == 'ref':
+                v = self.load(st, v)
+        if not isinstance(v, tuple):
+            return None
+        if v[0] == 'seq':
+            return list(v[1])
+        if v[0] == 'struct' and v[1] == '[array]':
+            return [x for _, x in v[3]]
+        if v[0] == 'struct' and v[1] == 'std::option::Option' and v[2] is not None:
+            return [sfield(v, '0')] if v[2][1] == 1 else []
+        return None
+
+    def model_sequences(self, st, name, args, depth, t=None):
+        last = name.rsplit('::', 1)[-1]
+        if not args and name.endswith(('Vec::<T>::new', 'Vec::<T, A>::new', 'Vec::<T>::with_capacity')):
+            return [(st, ('seq', ()))]
+        if name.endswith('Vec::<T>::with_capacity') or name.endswith('Vec::<T, A>::with_capacity'):
+            return [(st, ('seq', ()))]
+        if not args:
+            return None
+        trait = (t or {}).get('func', {}).get('trait') or ''
+        seqish = ('Iterator' in trait or 'IntoIterator' in trait or '<impl [T]>::' in name or 'Vec::<T, A>::' in name
+                  or 'Vec::<T>::' in name or 'array' in name or 'slice::' in name or 'Itertools' in trait)
+        if not seqish:
+            return None
+        items = self.as_seq(st, args[0])
+        if last in ('push', 'append', 'extend') and args[0][0] == 'ref':
+            cur = self.load(st, args[0])
+            base = self.as_seq(st, cur)
+            if base is None:
+                return None
+            if last == 'push':
+                new = base + [self.deep(st, args[1]) if args[1][0] != 'ref' else args[1]]
+            else:
+                other = self.as_seq(st, args[1])
+                if other is None:
+                    return None
+                new = base + other
+                if last == 'append' and args[1][0] == 'ref':
+                    r = args[1]
+                    b2 = st.frames[r[1]].get(r[2])
+                    st.frames[r[1]][r[2]] = self._set_path(b2, list(r[3]), ('seq', ())) if r[3] else ('seq', ())
+            r = args[0]
+            b0 = st.frames[r[1]].get(r[2])
+            st.frames[r[1]][r[2]] = self._set_path(b0, list(r[3]), ('seq', tuple(new))) if r[3] else ('seq', tuple(new))
+            return [(st, UNIT)]
+        if items is None:
+            # a symbolic Option turned into a sequence forks like a match
+            v = args[0]
+            if last in ('into_iter', 'iter') and ('Option' in (t or {}).get('func', {}).get('self_ty', '') or 'option::Option' in name):
+                return [(s2, ('seq', (x,) if some else ())) for s2, some, x in self.opt_cases(st, v)]
+            return None
+        if last in ('iter', 'into_iter', 'iter_mut', 'by_ref', 'collect', 'as_slice', 'to_vec', 'into_vec', 'cloned', 'copied', 'deref',
+                    'from_iter', 'rev') and len(args) == 1:
+            return [(st, ('seq', tuple(reversed(items) if last == 'rev' else items)))]
+        if last in ('len', 'count') and len(args) == 1:
+            return [(st, NUM(len(items)))]
+        if last == 'enumerate':
+            return [(st, ('seq', tuple(STRUCT('(tuple)', None, [('0', NUM(i)), ('1', x)]) for i, x in enumerate(items))))]
+        if last in ('zip', 'chain') and len(args) == 2:
+            others = [self.as_seq(st, args[1])]
+            if others[0] is None:
+                # chain/zip with a symbolic Option: fork
+                out = []
+                for s2, some, x in self.opt_cases(st, args[1]):
+                    o2 = [x] if some else []
+                    out.append((s2, o2))
+            else:
+                out = [(st, others[0])]
+            res = []
+            for s2, o2 in out:
+                if last == 'chain':
+                    res.append((s2, ('seq', tuple(items + o2))))
+                else:
+                    res.append((s2, ('seq', tuple(STRUCT('(tuple)', None, [('0', a), ('1', c)]) for a, c in zip(items, o2)))))
+            return res
+        if last in ('skip', 'take') and len(args) == 2 and is_num(args[1]):
+            k = int(args[1][1])
+            return [(st, ('seq', tuple(items[k:] if last == 'skip' else items[:k])))]
+        if last in ('map', 'filter', 'find', 'any', 'all', 'position', 'flat_map', 'for_each', 'filter_map') and len(args) == 2:
+            # thread the state through the elements in order; every closure call may fork
+            states = [(st, [])]     # (state, accumulated results / early result)
+            done = []
+            for idx, x in enumerate(items):
+                nxt = []
+                for s2, acc in states:
+                    rs = self.call_closure(s2, args[1], [x], depth)
+                    if rs is None:
+                        return None
+                    for s3, r in rs:
+                        if last == 'map':
+                            nxt.append((s3, acc + [r]))
+                        elif last == 'for_each':
+                            nxt.append((s3, acc))
+                        elif last == 'flat_map':
+                            sub = self.as_seq(s3, r)
+                            if sub is None:
+                                return None
+                            nxt.append((s3, acc + sub))
+                        elif last == 'filter_map':
+                            for s4, some, y in self.opt_cases(s3, r):
+                                nxt.append((s4, acc + [y] if some else acc))
+                        else:
+                            for s4, bv in self.bool_cases(s3, r):
+                                if last == 'filter':
+                                    nxt.append((s4, acc + [x] if bv else acc))
+                                elif last == 'find':
+                                    (done if bv else nxt).append((s4, self.SOME(x)) if bv else (s4, acc))
+                                elif last == 'position':
+                                    (done if bv else nxt).append((s4, self.SOME(NUM(idx))) if bv else (s4, acc))
+                                elif last == 'any':
+                                    (done if bv else nxt).append((s4, ('bool', True)) if bv else (s4, acc))
+                                else:   # all
+                                    (nxt if bv else done).append((s4, acc) if bv else (s4, ('bool', False)))
+                states = nxt
+                if len(states) + len(done) > self.max_paths:
+                    raise PathAbort('too many paths through a sequence')
+            if last in ('map', 'filter', 'flat_map', 'filter_map'):
+                return [(s2, ('seq', tuple(acc))) for s2, acc in states]
+            if last == 'for_each':
+                return [(s2, UNIT) for s2, _ in states]
+            tail = {'find': self.NONE, 'position': self.NONE, 'any': ('bool', False), 'all': ('bool', True)}[last]
+            return done + [(s2, tail) for s2, _ in states]
+        if last == 'fold' and len(args) == 3:
+            states = [(st, args[1])]
+            for x in items:
+                nxt = []
+                for s2, acc in states:
+                    rs = self.call_closure(s2, args[2], [acc, x], depth)
+                    if rs is None:
+                        return None
+                    nxt += rs
+                states = nxt
+            return states
+        if last == 'sum' and len(args) == 1:
+            acc = NUM(0)
+            for x in items:
+                if x[0] == 'ref':
+                    x = self.load(st, x)
+                acc = self.binop('Add', acc, x)
+            return [(st, acc)]
         return None
 
     # ---------------------------------------------------------------- models of external callees
